@@ -12,7 +12,8 @@ import models
 import tflsum
 import vlib
 
-FAMS = ["mixed_cpu", "conv_chain", "diamond", "single", "mixed_cpu", "lut_heavy", "conv_chain_big", "unsupported"]
+FAMS = ["mixed_cpu", "ew_dag", "conv_chain", "diamond", "ew_dag", "single", "mixed_cpu", "lut_heavy", "conv_chain_big", "unsupported",
+        "ew_dag", "multi_custom"]
 ELEM = {"int8": 1, "uint8": 1, "int16": 2, "int32": 4, "float32": 4, "int64": 8, "bool": 1, "float16": 2}
 AREA_COL = {"SRAM": "sram_memory_used", "DRAM": "dram_memory_used", "On-chip Flash": "on_chip_flash_memory_used",
             "Off-chip Flash": "off_chip_flash_memory_used"}
@@ -122,7 +123,7 @@ def run(tier):
     res = vlib.Result("C12", tier, "translation_validation")
     b = vlib.build_property("C12")
     okx, xlog = vlib.build_extraction()
-    n = 64 if tier == "quick" else 1600
+    n = 96 if tier == "quick" else 2400
     jobs = compiles.plan(FAMS, n, vlib.seed(), tag="c12", capture=False)
     # make sure alignments 16..256 all occur
     import random
